@@ -117,10 +117,14 @@ def r2_directions(ctx):
     ok = False
     if rc:
         comp = enclosing(rc[0], ast.ListComp)
-        ok = comp is not None and ast.unparse(comp.generators[0].iter) == 'zip(rqs, propagatedpths, reversed_propagatedpths)' and \
-            [ast.unparse(a) for a in rc[0].args] == [e.id for e in comp.generators[0].target.elts]
-        d = [s for s in walk_no_nested(pl.node) if isinstance(s, ast.Assign) and 'compute_path_with_disjunction' in ast.unparse(s.value)]
-        ok = ok and bool(d) and [e.id for e in d[0].targets[0].elts] == ['propagatedpths', 'reversed_pths', 'reversed_propagatedpths']
+        d = [s for s in walk_no_nested(pl.node) if isinstance(s, ast.Assign) and isinstance(s.value, ast.Call) and
+             getattr(s.value.func, 'id', '') == 'compute_path_with_disjunction']
+        ok = comp is not None and len(d) == 1 and isinstance(d[0].targets[0], ast.Tuple) and len(d[0].targets[0].elts) == 3 and len(d[0].value.args) >= 3
+        if ok:
+            fwd, _, rev = [e.id for e in d[0].targets[0].elts]
+            reqs = ast.unparse(d[0].value.args[2])
+            ok = ast.unparse(comp.generators[0].iter) == f'zip({reqs}, {fwd}, {rev})' and \
+                [ast.unparse(a) for a in rc[0].args] == [e.id for e in comp.generators[0].target.elts]
     ctx.check('R2.directions', site(pl), ok, key(pl, 'result-zip'),
               'planning does not build each result from (request i, propagated path i, propagated reverse path i)')
     ctx.need('R2.directions', 3)
@@ -155,7 +159,8 @@ def r3_dispatch(ctx):
         none_else = not any(isinstance(x, ast.Dict) and any(isinstance(k, ast.Constant) and k.value == 'label-hop' for k in x.keys)
                             for s in ifs[0].orelse for x in ast.walk(s))
         lt = ast.unparse(lab[0]).replace(' ', '').replace('\n', '') if lab else ''
-        ok = in_body and none_else and "[{'N':n,'M':m}forn,minzip(self.path_request.N,self.path_request.M)]" in lt
+        from ..pattern import find as _find
+        ok = in_body and none_else and bool(lab) and bool(_find("[{'N': V_n, 'M': V_m} for V_n, V_m in zip(self.path_request.N, self.path_request.M)]", lab[0]))
         ok = ok and any(isinstance(x, ast.Raise) for s in ifs[0].orelse for x in ast.walk(s)) and \
             any(isinstance(x, ast.Raise) for s in ifs[0].body for x in ast.walk(s))
     ctx.check('R3.dispatch', f'{site(dj)} labels', ok, key(dj, 'labels'),
@@ -164,15 +169,16 @@ def r3_dispatch(ctx):
     tp = [n for n in ast.walk(dj.node) if isinstance(n, ast.Dict) and any(isinstance(k, ast.Constant) and k.value == 'transponder-type' for k in n.keys)]
     ok = len(tp) == 1 and ast.unparse(tp[0]).replace(' ', '') == "{'transponder-type':self.path_request.tsp,'transponder-mode':self.path_request.tsp_mode}"
     g_if = enclosing(tp[0], ast.If) if tp else None
-    ok = ok and g_if is not None and ast.unparse(g_if.test) == 'isinstance(element, Transceiver)'
+    lp = [n for n in walk_no_nested(dj.node) if isinstance(n, ast.For)]
+    elv = lp[0].target.id if len(lp) == 1 and isinstance(lp[0].target, ast.Name) else None
+    ok = ok and g_if is not None and ast.unparse(g_if.test) == f'isinstance({elv}, Transceiver)'
     ctx.check('R3.dispatch', f'{site(dj)} transponder', ok, key(dj, 'transponder'),
               'the transponder object (type and mode of the request) is not attached to the transceiver hops')
     hop = [n for n in ast.walk(dj.node) if isinstance(n, ast.Dict) and any(isinstance(k, ast.Constant) and k.value == 'node-id' for k in n.keys)]
-    lp = [n for n in walk_no_nested(dj.node) if isinstance(n, ast.For)]
-    ok = len(hop) == 1 and "'node-id': element.uid" in ast.unparse(hop[0]) and len(lp) == 1 and ast.unparse(lp[0].iter) == 'self.computed_path'
+    ok = len(hop) == 1 and f"'node-id': {elv}.uid" in ast.unparse(hop[0]) and len(lp) == 1 and ast.unparse(lp[0].iter) == 'self.computed_path'
     ctx.check('R3.dispatch', f'{site(dj)} route hops', ok, key(dj, 'hops'), 'the route objects are not one hop per element of the computed path, in order')
     rj = repo.func('gnpy.tools.json_io', 'results_to_json')
-    ok = "'response'" in ast.unparse(rj.node) and '.json' in ast.unparse(rj.node) and 'for n in pathresults' in ast.unparse(rj.node).replace('\n', ' ')
+    ok = bool(_find(f"{{'response': [V_n.json for V_n in {rj.params[0]}]}}", rj.node))
     ctx.check('R3.dispatch', site(rj), ok, key(rj, 'results'), 'results_to_json does not list the json of every result under "response"')
     ctx.need('R3.dispatch', 5)
 
@@ -205,26 +211,55 @@ def r4_csv(ctx):
               'PMD penalties, power, bandwidth): a column would show another metric', f'{order}')
     jc = repo.func(RQ, 'jsontocsv')
     defs = local_defs(jc.node)
-    pmf = next((v for _, v in defs.get('path_metric_fields', []) if isinstance(v, ast.Tuple)), None)
-    cols = [e.value for e in pmf.elts] if pmf is not None else []
+    from ..pattern import find, mstmt, mexpr
+    tuples = {nm: v for nm, d in defs.items() for _, v in d if isinstance(v, ast.Tuple)}
+    pmf_name = next((nm for nm, v in tuples.items() if v.elts and isinstance(v.elts[0], ast.Constant) and v.elts[0].value == 'OSNR-0.1nm (average)'), None)
+    pmf = tuples.get(pmf_name)
+    cols = [e.value for e in pmf.elts if isinstance(e, ast.Constant)] if pmf is not None else []
     ok = cols[:8] == ['OSNR-0.1nm (average)', 'SNR-0.1nm (average)', 'SNR-bandwidth (average)', 'SNR-0.1nm (min)', 'SNR-0.1nm (max)',
                       'PDL_penalty', 'CD_penalty', 'PMD_penalty'] and cols[8:] == ['min required OSNR (inc. margin)', 'baud rate (Gbaud)', 'input power (dBm)']
     ctx.check('R4.csv', f'{site(jc)} columns', ok, key(jc, 'columns'), 'the CSV metric columns changed order or meaning', f'{cols}')
     jp = repo.func(RQ, '_jsontoparams')
     ret = [n for n in walk_no_nested(jp.node) if isinstance(n, ast.Return)]
-    ok = bool(ret) and ast.unparse(ret[-1].value).replace(' ', '').replace('\n', '') == \
-        "((path_bandwidth,output_osnr,output_snr,output_snrbandwidth,output_snr_min,output_snr_max,pdl,cd,pmd,minosnr+equipment['SI']['default'].sys_margins,baud_rate,power,pth,sptrm,bit_rate),cost)"
-    unp = [n for n in walk_no_nested(jp.node) if isinstance(n, ast.Assign) and '_jsontopath_metric' in ast.unparse(n.value)]
-    ok = ok and bool(unp) and [e.id for e in unp[0].targets[0].elts] == ['output_osnr', 'output_snr', 'output_snrbandwidth', 'output_snr_min',
-                                                                         'output_snr_max', 'pdl', 'cd', 'pmd', 'power', 'path_bandwidth']
+    unp = [n for n in walk_no_nested(jp.node) if isinstance(n, ast.Assign) and isinstance(n.value, ast.Call) and
+           getattr(n.value.func, 'id', '') == '_jsontopath_metric']
+    ok = len(ret) == 1 and len(unp) == 1 and isinstance(unp[0].targets[0], ast.Tuple) and len(unp[0].targets[0].elts) == 10
+    if ok:
+        m = [e.id for e in unp[0].targets[0].elts]      # in the (checked) column order of _jsontopath_metric: 8 metrics, power, bandwidth
+        EQ = jp.params[3]
+        mode = [b for n in walk_no_nested(jp.node) if isinstance(n, ast.Assign) for b in [mstmt(
+            "[V_osnr, V_baud, V_bit, V_cost] = next(([V_m['OSNR'], round(V_m['baud_rate'] * 1e-09, 2), round(V_m['bit_rate'] * 1e-09, 2), V_m['cost']] "
+            f"for V_m in {EQ}['Transceiver'][{jp.params[1]}].mode if V_m['format'] == {jp.params[2]}))", n)] if b]
+        joins = {n.targets[0].id: n.value.args[0].id for n in walk_no_nested(jp.node) if isinstance(n, ast.Assign) and isinstance(n.targets[0], ast.Name)
+                 and mexpr("' | '.join(V_t)", n.value) is not None}
+        ok = len(mode) == 1 and len(joins) == 2
+        if ok:
+            b = mode[0]
+            hops = [nm for nm, src in joins.items() if any("['num-unnum-hop']['node-id']" in ast.unparse(c) for c in calls_to(jp, {'append'})
+                                                            if ast.unparse(c.func.value) == src)]
+            labs = [nm for nm in joins if nm not in hops]
+            ok = len(hops) == 1 and len(labs) == 1
+            if ok:
+                want_row = f"(({m[9]},{','.join(m[:8])},{b['V_osnr']}+{EQ}['SI']['default'].sys_margins,{b['V_baud']},{m[8]},{hops[0]},{labs[0]},{b['V_bit']}),{b['V_cost']})"
+                ok = ast.unparse(ret[0].value).replace(' ', '').replace('\n', '') == want_row
     ctx.check('R4.csv', site(jp), ok, key(jp, 'params'),
               'the values handed to the CSV row are not (bandwidth, the 8 metrics in column order, mode OSNR + system margin, baud rate, '
               'power, path, spectrum, bit rate)')
-    jf = next((v for _, v in defs.get('jsontoparamsfields', []) if isinstance(v, ast.Tuple)), None)
-    ok = jf is not None and ast.unparse(jf).replace(' ', '') == "('path_bandwidth',*path_metric_fields,'path','spectrum(N,M)',bit_rate_field)"
-    ctx.check('R4.csv', f'{site(jc)} field mapping', ok, key(jc, 'field-mapping'), 'row values and column names are zipped in different orders')
+    consts = {nm: v.value for nm, d in defs.items() for _, v in d if isinstance(v, ast.Constant) and isinstance(v.value, str)}
+    brf = next((nm for nm, v in consts.items() if v == 'bit rate'), None)
+    pf_name = next((nm for nm, v in consts.items() if v == 'Pass?'), None)
+    jf_name = next((nm for nm, v in tuples.items() if ast.unparse(v).replace(' ', '') == f"('path_bandwidth',*{pmf_name},'path','spectrum(N,M)',{brf})"), None)
+    zips = find(f'V_vals.update(dict(zip({jf_name}, V_row)))', jc.node) if jf_name else []
+    rows = {b['V_row'] for _, b in zips}
+    okz = bool(zips) and all(any(isinstance(n, ast.Assign) and isinstance(n.targets[0], ast.Tuple) and isinstance(n.targets[0].elts[0], ast.Name) and
+                                 n.targets[0].elts[0].id == r and isinstance(n.value, ast.Call) and getattr(n.value.func, 'id', '') == '_jsontoparams'
+                                 for n in walk_no_nested(jc.node)) for r in rows)
+    ctx.check('R4.csv', f'{site(jc)} field mapping', jf_name is not None and okz, key(jc, 'field-mapping'),
+              'row values and column names are zipped in different orders')
     # pass flag
-    pf = [n for n in walk_no_nested(jc.node) if isinstance(n, ast.Assign) and ast.unparse(n.targets[0]) == 'values[pass_field]'
+    vals = {b['V_vals'] for _, b in zips}
+    vv = vals.pop() if len(vals) == 1 else None
+    pf = [n for n in walk_no_nested(jc.node) if isinstance(n, ast.Assign) and ast.unparse(n.targets[0]) == f'{vv}[{pf_name}]'
           and isinstance(n.value, ast.IfExp)]
     ok = False
     det = ''
@@ -234,15 +269,16 @@ def r4_csv(ctx):
         d = {k: ast.unparse(x) for k, dd in defs.items() for _, x in dd if isinstance(x, ast.AST)}
         ok = isinstance(v.body, ast.Compare) and isinstance(v.body.ops[0], ast.GtE) and isinstance(v.orelse, ast.Compare) and \
             isinstance(v.orelse.ops[0], ast.GtE) and \
-            d.get(ast.unparse(v.body.left)) == "values['SNR-0.1nm (min)']" and d.get(ast.unparse(v.orelse.left)) == "values['SNR-0.1nm (average)']" and \
-            d.get(ast.unparse(v.body.comparators[0])) == "values['min required OSNR (inc. margin)']" and \
+            d.get(ast.unparse(v.body.left)) == f"{vv}['SNR-0.1nm (min)']" and d.get(ast.unparse(v.orelse.left)) == f"{vv}['SNR-0.1nm (average)']" and \
+            d.get(ast.unparse(v.body.comparators[0])) == f"{vv}['min required OSNR (inc. margin)']" and \
             ast.unparse(v.body.comparators[0]) == ast.unparse(v.orelse.comparators[0])
     ctx.check('R4.csv', f'{site(jc)} pass flag', ok, key(jc, 'pass-flag'),
               'the CSV pass flag is not  worst-channel (else average) SNR-0.1nm >= required OSNR including margin  (equality passes, as in '
               'the planner\'s fixed-mode verdict)', det)
-    np_ = [n for n in walk_no_nested(jc.node) if isinstance(n, ast.Assign) and ast.unparse(n.targets[0]) == 'values[pass_field]'
+    np_ = [n for n in walk_no_nested(jc.node) if isinstance(n, ast.Assign) and ast.unparse(n.targets[0]) == f'{vv}[{pf_name}]'
            and not isinstance(n.value, ast.IfExp)]
-    ok = len(np_) == 1 and ast.unparse(np_[0].value) == 'no_path_reason'
+    ok = len(np_) == 1 and isinstance(np_[0].value, ast.Name) and \
+        any(ast.unparse(x).endswith("['no-path']['no-path']") for _, x in defs.get(np_[0].value.id, []) if isinstance(x, ast.AST))
     ctx.check('R4.csv', f'{site(jc)} blocked rows', ok, key(jc, 'blocked-rows'), 'a blocked request does not show its blocking reason in the pass column')
     ctx.need('R4.csv', 16)
 
@@ -250,22 +286,38 @@ def r4_csv(ctx):
 def r5_aggregation(ctx):
     repo = ctx.repo
     f = repo.func(RQ, 'requests_aggregation')
-    txt = [ast.unparse(n) for n in walk_no_nested(f.node) if isinstance(n, (ast.Assign, ast.AugAssign, ast.Expr))]
-    want = {'bandwidth summed': 'this_r.path_bandwidth += req.path_bandwidth', 'N concatenated': 'this_r.N = this_r.N + req.N',
-            'M concatenated': 'this_r.M = this_r.M + req.M', 'ids joined': "this_r.request_id = ' | '.join((this_r.request_id, req.request_id))",
-            'absorbed request removed': 'local_list.remove(req)'}
-    for label, frag in want.items():
-        ctx.check('R5.aggregation', f'{site(f)} {label}', frag in txt, key(f, f'agg|{label}'), f'aggregation: {label}: expected `{frag}`')
+    from ..pattern import find, mstmt, mexpr
+    REQS, DJ = f.params[0], f.params[1]
+    # absorbed request = variable of the loop over the caller's list, absorbing one = variable of the loop over the working copy
+    cps = [b['V_l'] for n in f.node.body for b in [mstmt(f'V_l = {REQS}.copy()', n) or mstmt(f'V_l = list({REQS})', n)] if b]
+    outer = [n for n in f.node.body if isinstance(n, ast.For) and ast.unparse(n.iter) == REQS and isinstance(n.target, ast.Name)]
+    inner = [n for n in (outer[0].body if outer else []) if isinstance(n, ast.For) and cps and ast.unparse(n.iter) == cps[0] and isinstance(n.target, ast.Name)]
+    if len(cps) != 1 or len(outer) != 1 or len(inner) != 1:
+        raise CannotAnalyse('requests_aggregation: loops over the request list and its working copy not found')
+    rq, keep, loc = outer[0].target.id, inner[0].target.id, cps[0]
+    want = {'bandwidth summed': [f'{keep}.path_bandwidth += {rq}.path_bandwidth', f'{keep}.path_bandwidth = {keep}.path_bandwidth + {rq}.path_bandwidth'],
+            'N concatenated': [f'{keep}.N = {keep}.N + {rq}.N', f'{keep}.N += {rq}.N'],
+            'M concatenated': [f'{keep}.M = {keep}.M + {rq}.M', f'{keep}.M += {rq}.M'],
+            'ids joined': [f"{keep}.request_id = ' | '.join(({keep}.request_id, {rq}.request_id))"],
+            'absorbed request removed': [f'{loc}.remove({rq})']}
+    for label, frags in want.items():
+        ctx.check('R5.aggregation', f'{site(f)} {label}', any(find(fr, inner[0]) for fr in frags), key(f, f'agg|{label}'),
+                  f'aggregation: {label}: expected `{frags[0]}`')
     cond = [n for n in walk_no_nested(f.node) if isinstance(n, ast.If) and 'compare_reqs' in ast.unparse(n.test)]
-    ok = len(cond) == 1 and 'req.request_id != this_r.request_id' in ast.unparse(cond[0].test) and 'this_r.tsp_mode is not None' in ast.unparse(cond[0].test)
+    t = ast.unparse(cond[0].test) if len(cond) == 1 else ''
+    ok = len(cond) == 1 and (f'{rq}.request_id != {keep}.request_id' in t or f'{keep}.request_id != {rq}.request_id' in t) and \
+        f'{keep}.tsp_mode is not None' in t and (f'compare_reqs({rq}, {keep}, {DJ})' in t or f'compare_reqs({keep}, {rq}, {DJ})' in t)
     ctx.check('R5.aggregation', f'{site(f)} when', ok, key(f, 'agg-when'), 'requests are aggregated without being distinct, comparable and with a defined mode')
+    rets = [n for n in walk_no_nested(f.node) if isinstance(n, ast.Return)]
+    ctx.check('R5.aggregation', f'{site(f)} result', len(rets) == 1 and ast.unparse(rets[0].value).replace(' ', '') in (f'({loc},{DJ})', f'{loc},{DJ}'),
+              key(f, 'agg-result'), 'the aggregated list (working copy) and the group list are not what is returned')
     cr = repo.func(RQ, 'compare_reqs')
-    fields = {n.attr for n in ast.walk(cr.node) if isinstance(n, ast.Attribute) and isinstance(n.value, ast.Name) and n.value.id == 'req1'}
+    fields = {n.attr for n in ast.walk(cr.node) if isinstance(n, ast.Attribute) and isinstance(n.value, ast.Name) and n.value.id == cr.params[0]}
     need = {'source', 'destination', 'tsp', 'tsp_mode', 'baud_rate', 'nodes_list', 'loose_list', 'spacing', 'power', 'nb_channel', 'f_min', 'f_max',
             'format', 'OSNR', 'roll_off', 'tx_power', 'request_id'}
     ctx.check('R5.aggregation', site(cr), need <= fields, key(cr, 'compare-fields'),
               f'requests are considered identical without comparing {sorted(need - fields)}')
-    ctx.need('R5.aggregation', 7)
+    ctx.need('R5.aggregation', 8)
 
 
 def r6_own_objects(ctx):
@@ -293,9 +345,21 @@ def r6_own_objects(ctx):
     repo = ctx.repo
     f = repo.func(RQ, 'compute_path_with_disjunction')
     apps = {ast.unparse(c.func.value): ast.unparse(c.args[0]) for c in calls_to(f, {'append'}) if isinstance(c.func, ast.Attribute)}
-    ok = apps.get('path_res_list') == 'total_path' and apps.get('propagated_reversed_path_res_list') == 'propagated_reversed_path'
-    d = [ast.unparse(n.value) for n in walk_no_nested(f.node) if isinstance(n, ast.Assign) and ast.unparse(n.targets[0]) == 'propagated_reversed_path']
-    ok = ok and set(d) == {'rev_p', '[]'}
+    rets = [n.value for n in walk_no_nested(f.node) if isinstance(n, ast.Return) and isinstance(n.value, ast.Tuple)]
+    ok = len(rets) == 1 and len(rets[0].elts) == 3 and all(isinstance(e, ast.Name) for e in rets[0].elts)
+    if ok:
+        fwd_l, _, rev_l = [e.id for e in rets[0].elts]
+
+        def defs_of(nm):
+            return [ast.unparse(n.value) for n in walk_no_nested(f.node) if isinstance(n, ast.Assign) and ast.unparse(n.targets[0]) == nm]
+        x, y = apps.get(fwd_l), apps.get(rev_l)
+        ok = x is not None and y is not None and bool(set(defs_of(x)) - {'[]'}) and all(d.startswith('deepcopy(') for d in set(defs_of(x)) - {'[]'})
+        others = set(defs_of(y)) - {'[]'}
+        ok = ok and len(others) == 1 and '[]' in defs_of(y)
+        if ok:
+            z = others.pop()
+            ok = bool(defs_of(z)) and all(d.startswith('deepcopy(') for d in defs_of(z)) and \
+                any(ast.unparse(c.args[0]) == z for c in calls_to(f, {'propagate'}) if c.args)
     ctx.check('R6.own-objects', f'{site(f)} returned paths', ok, key(f, 'returned-paths'),
               'the lists returned to planning are not the propagated forward copy and the propagated reverse copy of each request')
 
